@@ -37,15 +37,31 @@ impl Trace {
         Trace { events: vec![], rest_one: true, eof_scribble: None }
     }
     pub fn to_json(&self) -> Json {
-        let evs = self
-            .events
-            .iter()
-            .map(|e| match e {
-                Ev::Deliver { k, scribble: None } => Json::s(&format!("deliver:{}", k)),
-                Ev::Deliver { k, scribble: Some(b) } => Json::s(&format!("deliver:{}:scribble:{}", k, b)),
-                Ev::Intr => Json::s("interrupted"),
-            })
-            .collect();
+        // runs of Interrupted are written run-length encoded ("interrupted*1025")
+        let mut evs: Vec<Json> = Vec::new();
+        let mut run = 0usize;
+        let flush = |evs: &mut Vec<Json>, run: &mut usize| {
+            if *run == 1 {
+                evs.push(Json::s("interrupted"));
+            } else if *run > 1 {
+                evs.push(Json::s(&format!("interrupted*{}", run)));
+            }
+            *run = 0;
+        };
+        for e in &self.events {
+            match e {
+                Ev::Intr => run += 1,
+                Ev::Deliver { k, scribble: None } => {
+                    flush(&mut evs, &mut run);
+                    evs.push(Json::s(&format!("deliver:{}", k)));
+                }
+                Ev::Deliver { k, scribble: Some(b) } => {
+                    flush(&mut evs, &mut run);
+                    evs.push(Json::s(&format!("deliver:{}:scribble:{}", k, b)));
+                }
+            }
+        }
+        flush(&mut evs, &mut run);
         Json::obj()
             .with("events", Json::Arr(evs))
             .with("rest", Json::s(if self.rest_one { "one-byte-per-call" } else { "all-that-fits" }))
@@ -55,6 +71,12 @@ impl Trace {
         let mut events = Vec::new();
         for e in j.arr_of("events")? {
             let s = e.as_str()?;
+            if let Some(n) = s.strip_prefix("interrupted*") {
+                for _ in 0..n.parse::<usize>().ok()? {
+                    events.push(Ev::Intr);
+                }
+                continue;
+            }
             let p: Vec<&str> = s.split(':').collect();
             events.push(match p.as_slice() {
                 ["interrupted"] => Ev::Intr,
